@@ -23,7 +23,7 @@ META = {
 }
 
 NEG = [('impl_clamp', ['Inv_C04_QTotal', 'Inv_C04_NoRaise']), ('impl_limit', ['Inv_C04_Refuse']),
-       ('impl_plus', ['Inv_C04_RoundTrip']), ('drop_empty', ['Inv_C04_RoundTrip']), ('unsafe', ['Inv_C04_NoRaise', 'Inv_C04_RoundTrip'])]
+       ('impl_plus', ['Inv_C04_RoundTrip']), ('drop_empty', ['Inv_C04_RoundTrip']), ('none_returns', ['Inv_C04_RoundTrip']), ('unsafe', ['Inv_C04_NoRaise', 'Inv_C04_RoundTrip'])]
 
 
 def _txt(codes):
@@ -39,6 +39,8 @@ def key_fn(ev, clause):
         return '%s|demultiplex|%s|phred>51_in_read' % (c, ev['raised'])
     if c == 'Inv_C04_Refuse':
         return '%s|asFastq|header_len=%d' % (c, len(ev['header']))
+    if c == 'Inv_C04_RoundTrip' and len(w) > 1 and ev.get('digested') and not ev['bt']:
+        return '%s|read_left_undecoded|shape=%s|mate=%d' % (c, ev.get('shape'), ev['mate'])
     if c == 'Inv_C04_RoundTrip' and len(w) > 1:
         val = dict((k, v) for k, v in ev['dt']).get(w[1], [])
         unsafe = sorted(set(chr(x) for x in val if not (chr(x).isalnum() or chr(x) in '-_')))
@@ -51,8 +53,8 @@ def key_fn(ev, clause):
 def what_fn(ev, clause):
     if ev['ev'] == 'qcode':
         return '%s: quality character %r -> %s' % (clause, chr(ev['c']), ev['raised'] or _txt(ev['enc']))
-    return '%s: strategy=%s header-variant=%s mode=%s mate=%d library=%r index=%r raised=%r refused=%s header=%r (%d chars) bam=%s' % (
-        clause, ev['strategy'], ev['hv'], ev['mode'], ev['mate'], _txt(ev['ly']), _txt(ev['in']['idx']), ev['raised'], ev['refused'],
+    return '%s: strategy=%s header-variant=%s mode=%s fragment-shape=%s mate=%d library=%r index=%r raised=%r refused=%s header=%r (%d chars) bam=%s' % (
+        clause, ev['strategy'], ev['hv'], ev['mode'], ev.get('shape'), ev['mate'], _txt(ev['ly']), _txt(ev['in']['idx']), ev['raised'], ev['refused'],
         _txt(ev['header']), len(ev['header']), {k: _txt(v) for k, v in ev['bt']})
 
 
@@ -84,8 +86,8 @@ def run(tier):
     vlib.scratch()
     vlib.sany('Codec')
     vlib.sany('Trace_Codec')
-    acts = ['Demux', 'AsFastq', 'Align', 'FromName', 'TagRead']
-    with ThreadPoolExecutor(max_workers=5) as ex:
+    acts = ['Demux', 'AsFastq', 'Align', 'Digest', 'FromName', 'TagRead']
+    with ThreadPoolExecutor(max_workers=6) as ex:
         negs = [ex.submit(vlib.mc, 'Codec', 'MC_Codec_%s.cfg' % v, expect='fail', expect_inv=inv, workers=2, coverage=False)
                 for v, inv in NEG]
         c.mc_pass('Codec', 'MC_Codec_design_%s.cfg' % ('q' if quick else 't'), actions_required=acts, workers=8 if quick else None,
